@@ -532,7 +532,9 @@ func buildSeeds() {
 		}
 	}
 	seeds["parse_aux"] = append(seeds["parse_aux"], []byte("XH:H:1AE301"), []byte("XB:B:i,1,-2,3"), []byte("XB:B:C"))
-	seeds["parse_cigar"] = [][]byte{[]byte("2S6M1D2M"), []byte("*"), []byte("10M5N10M3H"), []byte("268435455M")}
+	seeds["parse_cigar"] = [][]byte{[]byte("2S6M1D2M"), []byte("*"), []byte("10M5N10M3H"), []byte("268435455M"),
+		// lengths beyond the 28-bit field are split by the parser: the split boundaries
+		[]byte("268435456M"), []byte("536870911M"), []byte("536870910M"), []byte("4M268435457N4M"), []byte("805306366M")}
 	seeds["header_text"] = [][]byte{text, []byte("@HD\tVN:1.0\n@SQ\tSN:a\tLN:1\n@SQ\tSN:a\tLN:1\tM5:0123456789abcdef0123456789abcdef\n@CO\tx\n")}
 	seeds["header_binary"] = [][]byte{hdrBin}
 	// indexes
